@@ -336,7 +336,6 @@ func (w *World) distributor() *ssa.Function {
 	return nil
 }
 
-
 // staticHelpers: f and the same-package, non-exported functions without a go statement that it
 // reaches by static calls (depth <= d). Unlike unit() this does not consult the anchors (it is
 // used to find them).
